@@ -24,6 +24,18 @@ EXPLANATION = (
 def table_names(repo, modname, tname):
     m = repo.module(modname)
     node = m.constants.get(tname)
+    if node is not None and not isinstance(node, ast.Dict):
+        # a table that is computed at import (copied from another table, updated, built by a helper): evaluate its defining expression
+        from sa.cells import Evaluator, Undecided
+        try:
+            v = Evaluator(repo)._expr(node, {}, m, None)
+        except Undecided as u:
+            raise AnalysisError("%s.%s is not a dict display and not evaluable: %s" % (modname, tname, u))
+        except Exception as ex:  # Raised while evaluating the table
+            raise AnalysisError("%s.%s: evaluation of the table raises %s" % (modname, tname, ex))
+        if isinstance(v, dict) and all(isinstance(k, int) and isinstance(x, tuple) and len(x) == 3 and x[0] == "func" for k, x in v.items()):
+            return m, node, {k: x[2] for k, x in v.items()}
+        raise AnalysisError("%s.%s does not evaluate to a table of functions" % (modname, tname))
     if not isinstance(node, ast.Dict):
         raise AnalysisError("%s.%s is not a dict display" % (modname, tname))
     f = Folder(repo, m.name)
@@ -80,6 +92,121 @@ def _depth(e, which="stack"):
     return max(ds) if ds else 0
 
 
+def _enc(n):
+    """script number encoding (reference)"""
+    if n == 0:
+        return b""
+    a, out_ = abs(n), bytearray()
+    while a:
+        out_.append(a & 0xFF)
+        a >>= 8
+    if out_[-1] & 0x80:
+        out_.append(0x80 if n < 0 else 0)
+    elif n < 0:
+        out_[-1] |= 0x80
+    return bytes(out_)
+
+
+def _dec(b):
+    if not b:
+        return 0
+    big = b[::-1]
+    neg = bool(big[0] & 0x80)
+    v = big[0] & 0x7F
+    for c in big[1:]:
+        v = (v << 8) + c
+    return -v if neg else v
+
+
+def _interp(t, slots, depth):
+    k = t[0]
+    if k == "slot":
+        return slots[-t[1]]
+    if k == "dec":
+        return _dec(_interp(t[1], slots, depth))
+    if k == "enc":
+        return _enc(_interp(t[1], slots, depth))
+    if k == "const":
+        return t[1]
+    if k == "bool":
+        return 1 if _interp(t[1], slots, depth) else 0
+    if k == "not":
+        return not _interp(t[1], slots, depth)
+    if k == "cmp":
+        a, b = _interp(t[2], slots, depth), _interp(t[3], slots, depth)
+        return {"==": a == b, "!=": a != b, "<": a < b, "<=": a <= b, ">": a > b, ">=": a >= b}[t[1]]
+    if k in ("add", "sub", "min", "max", "and", "or"):
+        a, b = _interp(t[1], slots, depth), _interp(t[2], slots, depth)
+        return {"add": lambda: a + b, "sub": lambda: a - b, "min": lambda: min(a, b), "max": lambda: max(a, b), "and": lambda: bool(a) and bool(b), "or": lambda: bool(a) or bool(b)}[k]()
+    if k == "neg":
+        return -_interp(t[1], slots, depth)
+    if k == "abs":
+        return abs(_interp(t[1], slots, depth))
+    if k == "len":
+        return len(_interp(t[1], slots, depth))
+    if k == "depth":
+        return depth
+    raise KeyError(k)
+
+
+def _stackfx_cells(ctx, code, hname, fn, m, oblkey):
+    """the handler evaluated on stacks built from a pool of operands (script numbers around the byte boundaries, non-minimal and negative-zero
+    encodings) at the required depth, one deeper, and one too shallow; the resulting stack is compared with the consensus effect read as a
+    function.  Bounded in the operand values; None when the handler or the effect is outside what can be evaluated (hash opcodes)."""
+    import itertools
+    from sa.cells import Evaluator, Raised, Undecided
+    name, depth, consumed, pushed = OPS.FIXED[code]
+    if any("hash" in repr(t) for t in pushed):
+        return None
+    nums = [-2, -1, 0, 1, 2, 3, 127, 128, -128, 255, 256, -256, 32767, 2 ** 31 - 1, -(2 ** 31 - 1)]
+    pool = [_enc(n) for n in nums] + [b"\x00", b"\x80", b"\x05\x00", b"\x05\x80"]
+    uses_numbers = any("dec" in repr(t) for t in pushed)
+    if depth <= 2:
+        choices = pool if uses_numbers else [b"\x01", b"\x02\x03", b""]
+    elif depth == 3:
+        choices = pool[:9] if uses_numbers else [b"\x01", b"\x02\x03", b""]
+    else:
+        choices = None
+    stacks = []
+    if choices is not None:
+        for tup in itertools.product(choices, repeat=depth):
+            stacks.append(list(tup))
+    else:
+        stacks.append([bytes([0x10 + i]) for i in range(depth)])
+    spec = "op:" + hname
+    n = 0
+    for base in stacks:
+        for extra in ([], [b"\xaa\xbb"]):
+            n += 1
+            st = list(extra) + list(base)
+            want = list(extra) + list(base[:len(base) - consumed]) + [_interp(t, st, len(st)) for t in pushed]
+            # the oracle's pushed elements are written with consumed elements still addressable: slots refer to the stack before the opcode
+            got = list(st)
+            try:
+                r = Evaluator(ctx.repo).call(spec, [got])
+            except Undecided:
+                return None
+            except Raised as x:
+                return ctx.bad(spec, "%s (%d → %s) raises %s on the stack %s" % (name, code, hname, x.name, [e.hex() for e in st]), fn, m, key="%s:%s:raises" % (oblkey, name))
+            if r is not True or got != want:
+                return ctx.bad(spec, "%s (%d → %s) on the stack [%s] %s [%s]; consensus leaves [%s]" % (
+                    name, code, hname, " ".join(e.hex() or "''" for e in st), "fails and leaves" if r is not True else "leaves", " ".join(e.hex() or "''" for e in got),
+                    " ".join(e.hex() or "''" for e in want)), fn, m, key="%s:%s:%s" % (oblkey, name, "cells"))
+    if depth:
+        short = [bytes([0x10 + i]) for i in range(depth - 1)]
+        try:
+            r = Evaluator(ctx.repo).call(spec, [list(short)])
+        except Undecided:
+            return None
+        except Raised:
+            r = False
+        if r is not False:
+            return ctx.bad(spec, "%s (%d → %s) succeeds on a stack of %d element(s); consensus requires %d" % (name, code, hname, depth - 1, depth), fn, m,
+                           key="%s:%s:@depth" % (oblkey, name))
+    ctx.count("cells", n)
+    return ctx.ok(spec, "%s: depth %d, %s (evaluated on %d operand stacks)" % (name, depth, fmt_fx(consumed, pushed), n), fn, m, key="%s:%s" % (oblkey, name))
+
+
 def _stackfx(ctx, codes, oblkey):
     m, node, table = table_names(ctx.repo, "op", "OP_CODE_FUNCTIONS")
     out = []
@@ -94,10 +221,16 @@ def _stackfx(ctx, codes, oblkey):
             continue
         fn = m.functions[hname]
         ctx.note_fn(m, fn)
-        e = effect_of(ctx.repo, m, fn)
-        s = simplify_success(e["success"]) if e["success"] else None
+        try:
+            e = effect_of(ctx.repo, m, fn)
+            s = simplify_success(e["success"]) if e["success"] else None
+            why = None if s is not None else "success outcomes not reducible to one effect: %s" % (e["success"],)
+        except AnalysisError as ae:
+            s, why = None, str(ae)
         if s is None:
-            out.append(ctx.err("op:" + hname, "%s: success outcomes not reducible to one effect: %s" % (name, e["success"]), fn, m))
+            # the symbolic stack executor does not model this spelling of the handler: decide it by evaluating the handler on a pool of operands
+            r = _stackfx_cells(ctx, code, hname, fn, m, oblkey)
+            out.append(r if r is not None else ctx.err("op:" + hname, "%s: %s" % (name, why), fn, m))
             continue
         conds, c, p, ac, ap = s
         anchor = "op:%s" % hname
@@ -328,7 +461,13 @@ def c07_5(ctx):
         fn2 = m.functions.get(table.get(code, ""))
         if fn2 is None:
             continue
-        e = effect_of(ctx.repo, m, fn2)
+        try:
+            e = effect_of(ctx.repo, m, fn2)
+        except AnalysisError as ae:
+            # not a spelling the symbolic executor models: decide the truth test by evaluating the handler on the operand pool (which holds 00, 80, 0500, 0580)
+            r = _stackfx_cells(ctx, code, fn2.name, fn2, m, "truth") if code in OPS.FIXED else _truth_cells(ctx, code, fn2, m)
+            out.append(r if r is not None else ctx.err("op:" + fn2.name, "%s: %s" % (OPS.NAMES[code], ae), fn2, m))
+            continue
         bad = []
         for c, _, p, _, _ in e["success"]:
             for x in list(c) + list(p):
@@ -347,6 +486,30 @@ def c07_5(ctx):
         else:
             out.append(ctx.ok("op:" + fn2.name, "%s uses the numeric zero test" % OPS.NAMES[code], fn2, m, key="truth:%d" % code))
     return out
+
+
+def _truth_cells(ctx, code, fn2, m):
+    """OP_VERIFY / OP_IFDUP evaluated on the operand pool: the top element counts as true exactly when its numeric value is non-zero"""
+    from sa.cells import Evaluator, Raised, Undecided
+    pool = [_enc(n) for n in (-2, -1, 0, 1, 2, 127, 128, 255, 256)] + [b"\x00", b"\x80", b"\x00\x00", b"\x00\x80", b"\x05\x00", b"\x05\x80"]
+    spec = "op:" + fn2.name
+    for top in pool:
+        st = [b"\xaa", top]
+        truth = _dec(top) != 0
+        try:
+            r = Evaluator(ctx.repo).call(spec, [st])
+        except Undecided:
+            return None
+        except Raised:
+            r = False
+        if code == 105:
+            ok = (r is True and st == [b"\xaa"]) if truth else (r is False)
+        else:
+            ok = r is True and st == ([b"\xaa", top, top] if truth else [b"\xaa", top])
+        if not ok:
+            return ctx.bad(spec, "%s with the top element %s (numeric value %d) returns %r and leaves %s: the truth of an element is its numeric value being non-zero "
+                                 "(00, 0000, 80, 0080 are false)" % (OPS.NAMES[code], top.hex() or "''", _dec(top), r, [e_.hex() for e_ in st]), fn2, m, key="truth:%d" % code)
+    return ctx.ok(spec, "%s uses the numeric zero test (evaluated on %d top elements incl. negative zero and non-minimal zeros)" % (OPS.NAMES[code], len(pool)), fn2, m, key="truth:%d" % code)
 
 
 def _walk(v):
